@@ -236,6 +236,35 @@ pub(super) fn build_action(a: &Value) -> Action {
             name: "v".parse().unwrap(),
         }
         .into(),
+        "ics20_withdrawal" => {
+            let from = u("from");
+            let memo = if from == 0 {
+                String::new()
+            } else {
+                serde_json::to_string(&astria_core::protocol::memos::v1::Ics20WithdrawalFromRollup {
+                    rollup_block_number: 7,
+                    rollup_withdrawal_event_id: s("ev").to_string(),
+                    rollup_return_address: "rollup-return".to_string(),
+                    memo: String::new(),
+                })
+                .unwrap()
+            };
+            astria_core::protocol::transaction::v1::action::Ics20Withdrawal {
+                amount: real_amount(u("amt"), s("asset")),
+                denom: denom(s("asset")),
+                destination_chain_address: "somewhere-else".to_string(),
+                return_address: addr(u("n1")),
+                timeout_height: ibc_types::core::client::Height::new(2, 100).unwrap(),
+                timeout_time: 200_000_000_000,
+                source_channel: ibc_types::core::channel::ChannelId::new(0),
+                fee_asset: denom(s("fa")),
+                memo,
+                bridge_address: if from == 0 { None } else { Some(addr(from)) },
+                use_compat_address: false,
+            }
+            .into()
+        }
+        "ibc_relay" => Action::Ibc(super::super::tests_app::bad_ibc_relay()),
         other => panic!("unknown action kind {other}"),
     }
 }
@@ -256,6 +285,7 @@ fn fee_change(kind: &str, b: u128, m: u128) -> FeeChange {
         "ibc_relayer_change" => FeeChange::IbcRelayerChange(FeeComponents::new(b, m)),
         "validator_update" => FeeChange::ValidatorUpdate(FeeComponents::new(b, m)),
         "ics20_withdrawal" => FeeChange::Ics20Withdrawal(FeeComponents::new(b, m)),
+        "ibc_relay" => FeeChange::IbcRelay(FeeComponents::new(b, m)),
         other => panic!("unknown fee kind {other}"),
     }
 }
@@ -317,6 +347,7 @@ fn put_fee(state: &mut StateDelta<Snapshot>, kind: &str, b: u128, m: u128) {
         FeeChange::IbcRelayerChange(f) => state.put_fees(f),
         FeeChange::ValidatorUpdate(f) => state.put_fees(f),
         FeeChange::Ics20Withdrawal(f) => state.put_fees(f),
+        FeeChange::IbcRelay(f) => state.put_fees(f),
         _ => unreachable!(),
     }
     .unwrap();
@@ -442,6 +473,19 @@ pub(super) fn materialise(state: &mut StateDelta<Snapshot>, t: &Value, base: Opt
             put_fee(state, kind, u128::from(f["b"].as_u64().unwrap()), u128::from(f["m"].as_u64().unwrap()));
         }
     }
+    for asset in &assets {
+        let new = &t["escrow"][asset];
+        let changed = base.map_or(new.as_u64().unwrap() > 0, |b| &b["escrow"][asset] != new);
+        if changed {
+            state
+                .put_ibc_channel_balance(
+                    &ibc_types::core::channel::ChannelId::new(0),
+                    &denom(asset),
+                    real_amount(new.as_u64().unwrap(), asset),
+                )
+                .unwrap();
+        }
+    }
     for w in t["wdSeen"].as_array().unwrap() {
         if base.map_or(true, |b| !set_contains(&b["wdSeen"], w)) {
             state
@@ -513,8 +557,13 @@ pub(super) async fn dump(state: &StateDelta<Snapshot>) -> BTreeMap<String, Strin
 /// Keys the Ledger specification deliberately does not model (each one is named here, in writing):
 ///  * the validator set / per-block validator updates (spec/Validators.tla; compared through the getter below),
 ///  * `bridge/.../last_tx`: the id of the last transaction signed by a bridge account (a function of the tx bytes).
+///  * penumbra-ibc's own bookkeeping of an outgoing packet (commitment, next send sequence).
 fn ignored_key(k: &str) -> bool {
-    k.contains("validator") || k.contains("last_tx") || k.contains("lasttx")
+    k.contains("validator")
+        || k.contains("last_tx")
+        || k.contains("lasttx")
+        || k.contains("commitments/ports/transfer")
+        || k.contains("nextSequenceSend")
 }
 
 pub(super) fn diff_dumps(real: &BTreeMap<String, String>, model: &BTreeMap<String, String>) -> Vec<String> {
@@ -614,6 +663,12 @@ impl World {
         let storage = self.fixture.storage();
         self.fixture.app.update_state_for_new_round(&storage);
     }
+
+    /// reset, then install the open IBC channels an Ics20Withdrawal needs (part of every materialised state)
+    pub(super) async fn reset_with_channels(&mut self) {
+        self.reset();
+        super::ibc::install_channels(self).await;
+    }
 }
 
 fn expected_deps(t: &Value) -> Vec<String> {
@@ -651,14 +706,14 @@ async fn run_case(w: &mut World, c: &Value) -> Vec<Value> {
     };
 
     // ---- expected post state, built from the specification alone
-    w.reset();
+    w.reset_with_channels().await;
     materialise(w.fixture.state_mut(), s, None);
     materialise_ephemeral(w.fixture.state_mut(), s);
     materialise(w.fixture.state_mut(), t, Some(s));
     let model_dump = dump(w.fixture.state()).await;
 
     if a["op"] == "end_block" {
-        w.reset();
+        w.reset_with_channels().await;
         materialise(w.fixture.state_mut(), s, None);
         materialise_ephemeral(w.fixture.state_mut(), s);
         // as App::post_execute_transactions does: the recipient is the sudo address stored at that point
@@ -677,7 +732,7 @@ async fn run_case(w: &mut World, c: &Value) -> Vec<Value> {
     }
 
     // ---- construct
-    w.reset();
+    w.reset_with_channels().await;
     let stale = a["stale"].as_bool().unwrap();
     let sc = if stale { &c["sc"] } else { s };
     materialise(w.fixture.state_mut(), sc, None);
@@ -705,7 +760,7 @@ async fn run_case(w: &mut World, c: &Value) -> Vec<Value> {
     }
 
     // ---- execute on s
-    w.reset();
+    w.reset_with_channels().await;
     materialise(w.fixture.state_mut(), s, None);
     materialise_ephemeral(w.fixture.state_mut(), s);
     let pre_dump = if expected_out == "ok" { None } else { Some(dump(w.fixture.state()).await) };
@@ -817,3 +872,161 @@ async fn ledger_transitions() {
         out.put(&json!({"case": k, "mismatches": mism}));
     }
 }
+
+// ---------------------------------------------------------------------------------------------
+// block-level replay: a whole block of the specification through the real finalize_block + commit
+// ---------------------------------------------------------------------------------------------
+fn modelled_key(k: &str) -> bool {
+    (k.starts_with("v:accounts/")
+        || k.starts_with("v:bridge/account/")
+        || k.starts_with("v:bridge/sudo/")
+        || k.starts_with("v:bridge/withdrawer/")
+        || k.starts_with("v:fees/")
+        || k.starts_with("v:authority/sudo")
+        || k.starts_with("v:ibc/sudo")
+        || k.starts_with("v:ibc/relayer/"))
+        && !ignored_key(k)
+}
+
+fn only_modelled(d: BTreeMap<String, String>) -> BTreeMap<String, String> {
+    d.into_iter().filter(|(k, _)| modelled_key(k)).collect()
+}
+
+/// Input: {"s0": state, "steps": [{"a": {...tx...}, "t": state}, ...], "final": state after end_block}
+async fn run_block(c: &Value) -> Vec<Value> {
+    use tendermint::{
+        abci::{
+            self,
+            types::CommitInfo,
+        },
+        block::Round,
+        Hash,
+        Time,
+    };
+    let mut mism = vec![];
+    let s0 = &c["s0"];
+    let mut w = World::new().await;
+    // make s0 (with the open IBC channels every materialised state has) the committed state
+    super::ibc::install_channels(&mut w).await;
+    materialise(w.fixture.state_mut(), s0, None);
+    let storage = w.fixture.storage();
+    w.fixture.app.prepare_commit(storage.clone(), Vec::new()).await.unwrap();
+    w.fixture.app.commit(storage.clone()).await.unwrap();
+
+    // expected committed state, from the specification alone
+    materialise(w.fixture.state_mut(), &c["final"], Some(s0));
+    let expected = only_modelled(dump(w.fixture.state()).await);
+    w.reset();
+
+    // the block's transactions, constructed against the block's start state as finalize_block will do
+    let mut txs = vec![];
+    for st in c["steps"].as_array().unwrap() {
+        let bytes = build_tx_bytes(&st["a"]["tx"]);
+        match CheckedTransaction::new(bytes, w.fixture.state()).await {
+            Ok(tx) => txs.push(Arc::new(tx)),
+            Err(e) => {
+                mism.push(json!({"sig": "ledger:block:tx-not-constructible-at-block-start",
+                                 "detail": {"tx": st["a"]["tx"], "error": format!("{e:#}")}}));
+                return mism;
+            }
+        }
+    }
+    // The block's commitments cover the deposits its transactions produce.  Like a proposer, obtain them by
+    // executing the transactions once; the scratch state is dropped again before the block is finalized.
+    for (tx, st) in txs.iter().zip(c["steps"].as_array().unwrap()) {
+        if let Err(e) = w.fixture.app.execute_transaction(tx.clone()).await {
+            mism.push(json!({"sig": "ledger:block:tx-fails-although-spec-executes-it",
+                             "detail": {"tx": st["a"]["tx"], "error": format!("{e:#}")}}));
+            return mism;
+        }
+    }
+    let deposits = w.fixture.state().get_cached_block_deposits();
+    w.reset();
+    let height = w.fixture.block_height().await.increment();
+    let finalize = abci::request::FinalizeBlock {
+        hash: Hash::Sha256([0x42; 32]),
+        height,
+        // Fixture::init_active_ibc_client stamps the client's consensus state (and the stored block time) at
+        // t = 100 s; a block much later than that would find the client expired
+        time: Time::from_unix_timestamp(101, 0).unwrap(),
+        next_validators_hash: Hash::default(),
+        proposer_address: [0u8; 20].to_vec().try_into().unwrap(),
+        txs: crate::test_utils::transactions_with_extended_commit_info_and_commitments(height, &txs, Some(deposits)),
+        decided_last_commit: CommitInfo {
+            votes: vec![],
+            round: Round::default(),
+        },
+        misbehavior: vec![],
+    };
+    let resp = match w.fixture.app.finalize_block(finalize, storage.clone()).await {
+        Ok(r) => r,
+        Err(e) => {
+            mism.push(json!({"sig": "ledger:block:finalize-error", "detail": format!("{e:#}")}));
+            return mism;
+        }
+    };
+    // per-transaction results: the injected items come first
+    let n = txs.len();
+    let results = &resp.tx_results[resp.tx_results.len() - n..];
+    let mut executed = 0;
+    for st in c["steps"].as_array().unwrap() {
+        let expected_ok = st["a"]["out"] == "ok";
+        // a fatally failing transaction is skipped by finalize_block and gets no result
+        if expected_ok {
+            executed += 1;
+        }
+    }
+    let ok_results = results.iter().filter(|r| r.code.is_ok()).count();
+    if resp.tx_results.len() < n && ok_results != executed {
+        mism.push(json!({"sig": "ledger:block:tx-results-differ",
+                         "detail": {"expected_ok": executed, "observed_ok": ok_results}}));
+    }
+    w.fixture.app.commit(storage.clone()).await.unwrap();
+    // deposits published with the block: read back from committed storage, per bridge rollup
+    let pre_end = c["steps"].as_array().unwrap().last().map_or(s0, |st| &st["t"]);
+    let mut obs_deps: Vec<String> = vec![];
+    for a in 1..=accounts_of(s0) {
+        let rid = rollup_id_of(a);
+        for d in w.fixture.state().get_deposits(&[0x42; 32], &rid).await.unwrap() {
+            obs_deps.push(format!(
+                "{}|{}|{}|{}|{}",
+                hex::encode(rid.as_bytes()),
+                d.bridge_address,
+                d.asset,
+                d.amount,
+                d.destination_chain_address
+            ));
+        }
+    }
+    obs_deps.sort();
+    let exp_deps = expected_deps(pre_end);
+    if obs_deps != exp_deps {
+        mism.push(json!({"sig": "ledger:block:published-deposits-differ", "detail": {"expected": exp_deps, "observed": obs_deps}}));
+    }
+    let real = only_modelled(dump(w.fixture.state()).await);
+    let d = diff_dumps(&real, &expected);
+    if !d.is_empty() {
+        let kinds: Vec<String> = c["steps"]
+            .as_array()
+            .unwrap()
+            .iter()
+            .map(|st| {
+                st["a"]["tx"]["acts"].as_array().unwrap().iter().map(|x| x["k"].as_str().unwrap()).collect::<Vec<_>>().join("+")
+            })
+            .collect();
+        mism.push(json!({"sig": format!("ledger:block:committed-state-differs:{}", kinds.join(";")),
+                         "detail": {"keys": d, "steps": c["steps"].as_array().unwrap().iter().map(|s| s["a"].clone()).collect::<Vec<_>>()}}));
+    }
+    mism
+}
+
+#[tokio::test]
+async fn ledger_blocks() {
+    let cases = io::read_cases();
+    let mut out = io::Writer::open();
+    for (k, c) in cases.iter().enumerate() {
+        let mism = run_block(c).await;
+        out.put(&json!({"case": k, "mismatches": mism}));
+    }
+}
+
